@@ -373,9 +373,21 @@ struct Inst
     fprintf(OUT, "get %d %d\n", idx, id);
     return bufs[id];
   }
+  std::atomic<int> put_sleep_ms{0};      // PS: a slow consumer - the put callback takes this long
   void put(std::shared_ptr<PC> c)
   {
     late("put");
+    if (put_sleep_ms > 0)
+    {
+      // the cloud belongs to the caller from the moment it is handed over: it must not change while the callback runs
+      size_t n0 = c->points.size(); uint32_t h0 = c->height, w0 = c->width;
+      std::this_thread::sleep_for(std::chrono::milliseconds(put_sleep_ms.load()));
+      if (c->points.size() != n0 || c->height != h0 || c->width != w0)
+      {
+        std::lock_guard<std::recursive_mutex> lg(g_out_mtx);
+        fprintf(OUT, "cloudmod %d %u %zu %zu\n", idx, c->seq, n0, c->points.size());
+      }
+    }
     std::lock_guard<std::recursive_mutex> lg(g_out_mtx);
     fprintf(OUT, "cloud %d %u %d %u %u %d %.9f %zu%s\n", idx, c->seq, id_of(c), c->height, c->width, (int)c->is_dense, c->timestamp, c->points.size(),
             c->frame_id == param.frame_id ? "" : " BADFRAMEID");
@@ -470,6 +482,7 @@ static int run_scenario(std::vector<std::string>& lines)
       }).detach();
     }
     else if (c == "SL") std::this_thread::sleep_for(std::chrono::milliseconds(I(1)));
+    else if (c == "PS") { auto it = insts.find((int)I(1)); if (it != insts.end()) it->second->put_sleep_ms = (int)I(2); }
     else if (c == "LB" || c == "LY")
     {
       auto it = insts.find((int)I(1));
